@@ -317,6 +317,23 @@ Definition tables_ok : bool :=
   cases_ok platform_cases && cases_ok fs_cases && cases_ok io_cases && cases_ok proc_cases &&
   forallb known_pre (platform_pre ++ fs_pre ++ io_pre ++ proc_pre).
 
+(* ---------- the ORDER of the rules ---------- *)
+
+Definition res_kind (r : cres) : option nat := match r with RWrap k _ | RFmt k => Some k | _ => None end.
+(* the kind each case of a switch returns, in SOURCE ORDER (None: the error itself / nil / another value) *)
+Definition rule_kinds (cs : list ccase) : list (option nat) := map (fun c => res_kind (snd c)) cs.
+
+(* the order the rules are EXPECTED to have (hand-written; a first-match switch: the order is the precedence): in
+   ConvertFileSystemError the pass-through of cancelled / timeout, then the timeout case, BEFORE exists / conflict /
+   not found / ... *)
+Definition expected_order_platform : list (option nat) := [None; None; None; Some ErrUnsupported; Some ErrUnsupported].
+Definition expected_order_fs : list (option nat) :=
+  [None; None; Some ErrTimeout; Some ErrExists; Some ErrConflict; Some ErrNotFound; Some ErrUnsupported; Some ErrInvalid;
+   Some ErrOutOfRange; Some ErrTooLarge; Some ErrNotImplemented; Some ErrEOF].
+Definition expected_order_io : list (option nat) := [None; Some ErrEOF].
+Definition expected_order_proc : list (option nat) :=
+  [None; None; None; Some ErrTimeout; Some ErrNotFound; Some ErrForbidden; Some ErrNotFound; Some ErrNotFound; Some ErrNotImplemented].
+
 (* ---------- wrapping ---------- *)
 
 (* a frame put around an error by a layer between the backend and the converter *)
